@@ -148,7 +148,10 @@ impl<'ast, 'decls> ResolveIterator<'ast, 'decls>
                 let bankdef = defs.bankdefs.get(self.bank_ref);
                 if let Some(label_align) = bankdef.label_align
                 {
-                    if decl.depth == 0
+                    // (only labels have a place in the output:
+                    // a constant declaration does not move the position)
+                    if decl.depth == 0 &&
+                        matches!(ast_symbol.kind, asm::AstSymbolKind::Label)
                     {
                         let span = ast_symbol.decl_span;
                         let bank = defs.bankdefs.get(self.bank_ref);
